@@ -229,3 +229,184 @@ Proof. intros F. apply deliver_failing_eq; auto. - reflexivity. - repeat split. 
 (* the pending-transaction consumers never panic, whatever a block carries *)
 Theorem rpc_pending_never_crashes decodes has_msgs is_eth valid : is_crash (rpc_pending decodes has_msgs is_eth valid) = false.
 Proof. destruct decodes, has_msgs, is_eth, valid; reflexivity. Qed.
+
+(* ---- isolation when the failing executions differ in gas: states equal on everything other senders read *)
+Ltac pj := cbn [bal sqn acc_exists has_code supply base_fee gmin_dec blk_limit blk_used tx_count cum_gas log_count
+  flag_paid flag_nonce set_bal set_sqn set_supply set_blk_used set_transient set_flags fst snd no_receipt
+  r_out r_gas_wanted r_gas_used r_tx_index r_receipt_gas r_cum_gas r_log_start r_status].
+Ltac pjall := cbn [bal sqn acc_exists has_code supply base_fee gmin_dec blk_limit blk_used tx_count cum_gas log_count
+  flag_paid flag_nonce set_bal set_sqn set_supply set_blk_used set_transient set_flags fst snd no_receipt
+  r_out r_gas_wanted r_gas_used r_tx_index r_receipt_gas r_cum_gas r_log_start r_status] in *.
+
+Record eqv (a : addr) (s s' : st) : Prop := mkEqv {
+  q_bal : forall x, x <> a -> x <> FEE_COLLECTOR -> bal s x = bal s' x;
+  q_sqn : forall x, sqn s x = sqn s' x;
+  q_acc : forall x, acc_exists s x = acc_exists s' x;
+  q_code : forall x, has_code s x = has_code s' x;
+  q_supply : supply s = supply s';
+  q_base : base_fee s = base_fee s';
+  q_gmin : gmin_dec s = gmin_dec s';
+  q_lim : blk_limit s = blk_limit s';
+  q_cnt : tx_count s = tx_count s';
+  q_log : log_count s = log_count s';
+  q_fp : flag_paid s = flag_paid s';
+  q_fn : flag_nonce s = flag_nonce s'
+}.
+
+Definition res_eq_mod_cum (r r' : txres) : Prop :=
+  r_out r = r_out r' /\ r_gas_wanted r = r_gas_wanted r' /\ r_gas_used r = r_gas_used r' /\
+  r_tx_index r = r_tx_index r' /\ r_receipt_gas r = r_receipt_gas r' /\ r_log_start r = r_log_start r' /\
+  r_status r = r_status r'.
+
+Lemma apply_moves_ext (P : addr -> Prop) m : forall f g,
+  (forall x, P x -> f x = g x) -> forall x, P x -> apply_moves f m x = apply_moves g m x.
+Proof.
+  unfold apply_moves. induction m as [|p m IH]; intros f g H x Hx; pj; auto.
+  apply IH; auto. intros y Hy. unfold add_to, upd.
+  destruct (y =? fst p) eqn:E; [|auto]. apply Z.eqb_eq in E. subst y. rewrite (H _ Hy). reflexivity.
+Qed.
+
+Lemma ante_eqv a s s' t :
+  eqv a s s' -> t_from t <> a -> t_from t <> FEE_COLLECTOR ->
+  match ante s t, ante s' t with
+  | inl c, inl c' => c = c'
+  | inr sa, inr sa' => eqv a sa sa' /\ blk_used sa = blk_used s /\ blk_used sa' = blk_used s' /\ blk_limit sa = blk_limit s
+  | _, _ => False
+  end.
+Proof.
+  intros [Eb Es Ea Ec Esu Eba Eg El Ecn Elo Efp Efn] Ha Hf.
+  destruct s as [b q ae hc su bf gm bl bu tc cg lc fp fn], s' as [b' q' ae' hc' su' bf' gm' bl' bu' tc' cg' lc' fp' fn'].
+  pjall. subst su' bf' gm' bl' tc' lc' fp' fn'.
+  unfold ante, price_of. pj.
+  rewrite <- (Ec (t_from t)), <- (Ea (t_from t)), <- (Eb (t_from t) Ha Hf).
+  destruct (t_recovered t) as [signer|]; auto.
+  destruct (negb (t_protected t)); auto.
+  destruct (hc (t_from t)); auto.
+  destruct (_ <? min_allowed _ _ _ _); auto.
+  destruct (negb (ae (t_from t))); auto.
+  destruct (b (t_from t) <? _); auto.
+  destruct (negb (signer =? t_from t)); auto.
+  rewrite <- (Es (t_from t)).
+  destruct (negb (t_nonce t =? q (t_from t))); auto.
+  repeat split; pj; auto.
+  - intros x Hx1 Hx2. unfold add_to, upd.
+    assert ((x =? FEE_COLLECTOR) = false) as -> by (apply Z.eqb_neq; auto).
+    destruct (x =? t_from t) eqn:E; [apply Z.eqb_eq in E; subst; rewrite Eb; auto|apply Eb; auto].
+  - intros x. unfold add_to, upd. destruct (x =? t_from t); rewrite ?Es; auto.
+Qed.
+
+Lemma deliver_eqv a s s' t o :
+  eqv a s s' -> blk_limit s <= 0 -> t_from t <> a -> t_from t <> FEE_COLLECTOR ->
+  eqv a (fst (deliver s t o)) (fst (deliver s' t o)) /\
+  res_eq_mod_cum (snd (deliver s t o)) (snd (deliver s' t o)) /\
+  blk_limit (fst (deliver s t o)) = blk_limit s.
+Proof.
+  intros He Hl Ha Hf. pose proof (ante_eqv a s s' t He Ha Hf) as HA.
+  pose proof (q_lim _ _ _ He) as El.
+  unfold deliver.
+  assert (blk_out_of_gas s = false) as -> by (unfold blk_out_of_gas; destruct (0 <? blk_limit s) eqn:E; auto; lia).
+  assert (blk_out_of_gas s' = false) as -> by (unfold blk_out_of_gas; rewrite <- El; destruct (0 <? blk_limit s) eqn:E; auto; lia).
+  destruct (ante s t) as [c|sa], (ante s' t) as [c'|sa']; try contradiction.
+  - subst. pj. split; [exact He|]. split; [unfold res_eq_mod_cum; pj; repeat split; auto|reflexivity].
+  - destruct HA as (Hq & Hu & Hu' & Hlim).
+    pose proof Hq as [Eb Es Ea Ec Esu Eba Eg El2 Ecn Elo Efp Efn].
+    assert (Hbal : bal sa (t_from t) = bal sa' (t_from t)) by (apply Eb; auto).
+    rewrite <- Hbal.
+    assert (Hp : price_of s t = price_of s' t) by (unfold price_of; rewrite (q_base _ _ _ He); reflexivity).
+    destruct ((t_gas t <? t_intrinsic t) || _ || e_commit_err o).
+    + pj. split; [constructor; pj; auto|]. split; [unfold res_eq_mod_cum; pj; rewrite <- Ecn; repeat split; auto|exact Hlim].
+    + assert (blk_would_overflow sa (e_used o) = false) as ->
+        by (unfold blk_would_overflow; rewrite Hlim; destruct (0 <? blk_limit s) eqn:E; auto; lia).
+      assert (blk_would_overflow sa' (e_used o) = false) as ->
+        by (unfold blk_would_overflow; rewrite <- El2, Hlim; destruct (0 <? blk_limit s) eqn:E; auto; lia).
+      pj. split; [|split; [unfold res_eq_mod_cum; pj; rewrite <- Ecn, <- Elo; repeat split; auto|exact Hlim]].
+      constructor; pj; auto; try lia.
+      * intros x Hx1 Hx2. rewrite <- Hp.
+        destruct (e_vmerr o).
+        -- unfold add_to, upd. assert ((x =? FEE_COLLECTOR) = false) as -> by (apply Z.eqb_neq; auto).
+           destruct (x =? t_from t) eqn:E; [apply Z.eqb_eq in E; subst; rewrite Eb; auto|apply Eb; auto].
+        -- apply (apply_moves_ext (fun y => y <> a /\ y <> FEE_COLLECTOR)); auto.
+           intros y [Hy1 Hy2]. unfold add_to, upd. assert ((y =? FEE_COLLECTOR) = false) as -> by (apply Z.eqb_neq; auto).
+           destruct (y =? t_from t) eqn:E; [apply Z.eqb_eq in E; subst; rewrite Eb; auto|apply Eb; auto].
+Qed.
+
+Lemma eqv_refl a s : eqv a s s.
+Proof. constructor; auto. Qed.
+
+Definition other_ok (a : addr) (i : item) : Prop :=
+  match i with Eth t _ => t_from t <> a /\ t_from t <> FEE_COLLECTOR | Cosmos _ _ _ _ => True end.
+
+Lemma deliver_failing_eqv s t o o' :
+  failing o -> failing o' -> e_logs o = e_logs o' -> e_commit_err o = e_commit_err o' -> blk_limit s <= 0 ->
+  eqv (t_from t) (fst (deliver s t o)) (fst (deliver s t o')) /\ blk_limit (fst (deliver s t o)) = blk_limit s.
+Proof.
+  unfold failing. intros F F' El Ec Hl. unfold deliver.
+  assert (blk_out_of_gas s = false) as -> by (unfold blk_out_of_gas; destruct (0 <? blk_limit s) eqn:E; auto; lia).
+  destruct (ante s t) as [c|sa] eqn:EA.
+  - pj. split; auto using eqv_refl.
+  - assert (Hlim : blk_limit sa = blk_limit s).
+    { pose proof (ante_eqv (t_from t + 1) s s t (eqv_refl _ _)) as H. rewrite EA in H.
+      destruct (Z.eq_dec (t_from t) FEE_COLLECTOR) as [Hf|Hf].
+      - (* the fee collector as sender: read the limit off the definition *)
+        clear H. unfold ante in EA.
+        repeat match type of EA with
+        | context [match ?x with _ => _ end] => destruct x; try discriminate
+        end; inversion EA; subst; reflexivity.
+      - destruct H as (_ & _ & _ & H); auto; lia. }
+    rewrite <- Ec. destruct ((t_gas t <? t_intrinsic t) || _ || e_commit_err o).
+    + pj. split; auto using eqv_refl.
+    + assert (forall g, blk_would_overflow sa g = false) as Hov
+        by (intros g; unfold blk_would_overflow; rewrite Hlim; destruct (0 <? blk_limit s) eqn:E; auto; lia).
+      rewrite !Hov, F, F', El. pj. split; auto.
+      constructor; pj; auto.
+      intros x Hx1 Hx2. unfold add_to, upd.
+      assert ((x =? FEE_COLLECTOR) = false) as -> by (apply Z.eqb_neq; auto).
+      assert ((x =? t_from t) = false) as -> by (apply Z.eqb_neq; auto). reflexivity.
+Qed.
+
+Lemma run_eqv a l : forall s s', eqv a s s' -> blk_limit s <= 0 -> Forall (other_ok a) l ->
+  eqv a (fst (run s l)) (fst (run s' l)) /\ Forall2 res_eq_mod_cum (snd (run s l)) (snd (run s' l)).
+Proof.
+  induction l as [|i l IH]; intros s s' He Hl Hok; cbn [run]; [pj; split; auto|].
+  inversion Hok as [|? ? Hi Hrest]; subst.
+  destruct i as [t o|g payer fee inc]; cbn [step].
+  - destruct Hi as [H1 H2]. destruct (deliver_eqv a s s' t o He Hl H1 H2) as (Hq & Hr & Hlim).
+    destruct (deliver s t o) as [s1 r1], (deliver s' t o) as [s1' r1']. cbn [fst snd] in *.
+    assert (Hl1 : blk_limit s1 <= 0) by lia.
+    destruct (IH s1 s1' Hq Hl1 Hrest) as [Hq2 Hr2].
+    destruct (run s1 l) as [s2 r2], (run s1' l) as [s2' r2']. cbn [fst snd] in *. split; auto. constructor; auto.
+  - set (u := if inc then _ else _). set (u' := if inc then _ else _).
+    assert (Hq : eqv a u u' /\ blk_limit u = blk_limit s).
+    { pose proof He as [Eb Es Ea Ec Esu Eba Eg El2 Ecn Elo Efp Efn].
+      subst u u'. destruct inc; pj; (split; [constructor; pj; auto|auto]).
+      - intros x Hx1 Hx2. unfold add_to, upd.
+        assert ((x =? FEE_COLLECTOR) = false) as -> by (apply Z.eqb_neq; auto).
+        destruct (x =? payer) eqn:E; [apply Z.eqb_eq in E; subst; rewrite Eb; auto|apply Eb; auto].
+      - intros x. unfold add_to, upd. destruct (x =? payer); rewrite ?Es; auto.
+      - intros x Hx1 Hx2. unfold add_to, upd.
+        assert ((x =? FEE_COLLECTOR) = false) as -> by (apply Z.eqb_neq; auto).
+        destruct (x =? payer) eqn:E; [apply Z.eqb_eq in E; subst; rewrite Eb; auto|apply Eb; auto]. }
+    destruct Hq as [Hq Hlim]. assert (Hl1 : blk_limit u <= 0) by lia.
+    destruct (IH u u' Hq Hl1 Hrest) as [Hq2 Hr2].
+    destruct (run u l) as [s2 r2], (run u' l) as [s2' r2']. cbn [fst snd] in *. split; auto.
+Qed.
+
+(* a failing transaction replaced by ANY failing execution of the same transaction (any gas figure): the results of
+   all later transactions of other senders are unchanged up to the cumulative-gas field, under an unlimited block
+   gas meter; the earlier transactions' results are literally the same *)
+Theorem tx_failure_isolated_any_gas s pre suf t o o' :
+  failing o -> failing o' -> e_logs o = e_logs o' -> e_commit_err o = e_commit_err o' ->
+  blk_limit (fst (run s pre)) <= 0 -> Forall (other_ok (t_from t)) suf ->
+  exists r1 x x' rs rs',
+    snd (run s (pre ++ Eth t o :: suf)) = r1 ++ x :: rs /\
+    snd (run s (pre ++ Eth t o' :: suf)) = r1 ++ x' :: rs' /\
+    Forall2 res_eq_mod_cum rs rs'.
+Proof.
+  intros F F' El Ec Hl Hok. rewrite !run_app. destruct (run s pre) as [s1 r1]. cbn [fst] in Hl. cbn [run step].
+  destruct (deliver_failing_eqv s1 t o o' F F' El Ec Hl) as [Hq Hlim].
+  destruct (deliver s1 t o) as [s2 x], (deliver s1 t o') as [s2' x']. cbn [fst] in *.
+  assert (Hl2 : blk_limit s2 <= 0) by lia.
+  destruct (run_eqv (t_from t) suf s2 s2' Hq Hl2 Hok) as [_ Hr].
+  destruct (run s2 suf) as [s3 rs], (run s2' suf) as [s3' rs']. cbn [snd] in *.
+  exists r1, x, x', rs, rs'. repeat split; auto.
+Qed.
